@@ -43,6 +43,10 @@ var replayCtors = map[string]string{
 	"measurements.ExponentialAverageMeasurement": `NewExponentialAverageMeasurement(100, 10)`,
 	"measurements.ImmutableSampleWindow":         `NewDefaultImmutableSampleWindow()`,
 	"measurements.SimpleExponentialMovingAverage": `func() *SimpleExponentialMovingAverage { m, _ := NewSimpleExponentialMovingAverage(0.5); return m }()`,
+	"measurements.SimpleMovingVariance":        `func() *SimpleMovingVariance { m, _ := NewSimpleMovingVariance(0.5, 0.5); return m }()`,
+	"measurements.WindowlessMovingPercentile":  `func() *WindowlessMovingPercentile { m, _ := NewWindowlessMovingPercentile(0.5, 1, 0.5, 0.5); return m }()`,
+	"limit.WindowedLimit": `func() *WindowedLimit { l, _ := NewWindowedLimit("replay", 1000000000, 1000000000, 10, 100000, NewSettableLimit("d", 10, nil), nil); return l }()`,
+	"limit.TracedLimit":   `NewTracedLimit(NewSettableLimit("d", 10, nil), NoopLimitLogger{})`,
 }
 
 var replayImports = map[string]string{
@@ -65,6 +69,9 @@ type ReplayResult struct {
 	Test      string `json:"generated_test,omitempty"`
 	Output    string `json:"real_code_output,omitempty"`
 	Cells     []map[string]string `json:"cells,omitempty"`
+	preAsserts []string          // model pre-state as SMT equalities (shared symbols of the function)
+	observed   map[string]string // GoPath -> "kind value" dumped after the real run
+	recvTerm   string
 }
 
 func namedOfRecv(fn *ssa.Function) *types.Named {
@@ -80,7 +87,9 @@ func namedOfRecv(fn *ssa.Function) *types.Named {
 }
 
 // collectCells enumerates the scalar cells reachable from ref (a term) of struct type nt.
-func collectCells(p *Prog, o *Obligation, nt *types.Named, ref, goPrefix string, depth int, out *[]replayCell) {
+// ref is the object's reference in the pre-state, postRef in the final state (they differ when a
+// pointer field was reassigned on the path).
+func collectCells(p *Prog, o *Obligation, nt *types.Named, ref, postRef, goPrefix string, depth int, out *[]replayCell) {
 	st, ok := nt.Underlying().(*types.Struct)
 	if !ok {
 		return
@@ -109,21 +118,22 @@ func collectCells(p *Prog, o *Obligation, nt *types.Named, ref, goPrefix string,
 			} else if isFloat(ft) {
 				kind, sort = "float", "F"
 			}
-			*out = append(*out, replayCell{GoPath: gp, Pre: "(select H0." + arr + " " + ref + ")", Post: "(select " + final(arr) + " " + ref + ")", Sort: sort, Kind: kind})
+			*out = append(*out, replayCell{GoPath: gp, Pre: "(select H0." + arr + " " + ref + ")", Post: "(select " + final(arr) + " " + postRef + ")", Sort: sort, Kind: kind})
 		default:
 			if depth <= 0 {
 				continue
 			}
 			if pt, ok := ft.Underlying().(*types.Pointer); ok {
 				if sub, ok := pt.Elem().(*types.Named); ok && inRepo(sub) && declared(arr) {
-					collectCells(p, o, sub, "(select H0."+arr+" "+ref+")", gp+".", depth-1, out)
+					collectCells(p, o, sub, "(select H0."+arr+" "+ref+")", "(select "+final(arr)+" "+postRef+")", gp+".", depth-1, out)
 				}
 				// pointer to a basic cell (SimpleStrategy)
 				if b, ok := pt.Elem().Underlying().(*types.Basic); ok && b.Info()&types.IsInteger != 0 && declared(arr) {
 					cell := sanitize(typeKey(pt.Elem()))
 					if declared(cell) {
 						sub := "(select H0." + arr + " " + ref + ")"
-						*out = append(*out, replayCell{GoPath: gp + ".*", Pre: "(select H0." + cell + " " + sub + ")", Post: "(select " + final(cell) + " " + sub + ")", Sort: "Int", Kind: "int"})
+						psub := "(select " + final(arr) + " " + postRef + ")"
+						*out = append(*out, replayCell{GoPath: gp + ".*", Pre: "(select H0." + cell + " " + sub + ")", Post: "(select " + final(cell) + " " + psub + ")", Sort: "Int", Kind: "int"})
 					}
 				}
 			}
@@ -133,7 +143,7 @@ func collectCells(p *Prog, o *Obligation, nt *types.Named, ref, goPrefix string,
 						if t, err := p.lookupType(dt); err == nil {
 							if pt, ok := t.(*types.Pointer); ok {
 								if sub, ok := pt.Elem().(*types.Named); ok && declared(arr+"_v") {
-									collectCells(p, o, sub, "(select H0."+arr+"_v "+ref+")", gp+".", depth-1, out)
+									collectCells(p, o, sub, "(select H0."+arr+"_v "+ref+")", "(select "+final(arr+"_v")+" "+postRef+")", gp+".", depth-1, out)
 								}
 							}
 						}
@@ -411,7 +421,7 @@ func attemptReplay(p *Prog, prop string, o *Obligation) ReplayResult {
 		return res
 	}
 	var cells []replayCell
-	collectCells(p, o, nt, recv.L[0], "", 2, &cells)
+	collectCells(p, o, nt, recv.L[0], recv.L[0], "", 2, &cells)
 	wd, err := os.MkdirTemp("", "gcv-replay-")
 	if err != nil {
 		res.Reason = err.Error()
@@ -611,9 +621,40 @@ func attemptReplay(p *Prog, prop string, o *Obligation) ReplayResult {
 		}
 	}
 	for _, c := range cells {
+		ob := observed[c.GoPath]
+		res.Cells = append(res.Cells, map[string]string{"cell": c.GoPath, "pre_model": c.PreVal, "post_observed": ob})
+	}
+	postAsserts = postAssertsFor(cells, observed)
+	res.preAsserts, res.observed, res.recvTerm = preAsserts, observed, recv.L[0]
+	q := *o
+	q.PC = append(append(append([]string(nil), o.PC...), preAsserts...), postAsserts...)
+	f := filepath.Join(wd, "consistency.smt2")
+	os.WriteFile(f, []byte(smtText(&q, true)), 0o644)
+	best, _ := solvePortfolio(f, 20, false)
+	if d := os.Getenv("GCV_DEBUG_REPLAY"); d != "" {
+		b, _ := os.ReadFile(f)
+		os.WriteFile(filepath.Join(d, fmt.Sprintf("consistency_%s_%d.smt2", unsafeName.ReplaceAllString(o.Func, "_"), o.PathID)), b, 0o644)
+		os.WriteFile(filepath.Join(d, fmt.Sprintf("test_%s_%d.go.txt", unsafeName.ReplaceAllString(o.Func, "_"), o.PathID)), []byte(res.Test+"\n/*\n"+res.Output+"\n*/\n"), 0o644)
+	}
+	switch best.Status {
+	case "sat":
+		res.Confirmed = true
+		res.Reason = "the real function, run from the model's pre-state, ends in a state consistent with the violating symbolic path and violates the clause"
+	case "unsat":
+		res.Reason = "the real run from the model's pre-state does not follow the violating symbolic execution (abstraction artefact or non-deterministic input); see cells"
+	default:
+		res.Reason = "consistency query undecided"
+	}
+	sort.Slice(res.Cells, func(i, j int) bool { return res.Cells[i]["cell"] < res.Cells[j]["cell"] })
+	return res
+}
+
+// postAssertsFor: the observed post-state of the real run as constraints on the symbolic final
+// state of one path (floats with a relative tolerance: the model computes in exact reals, A1).
+func postAssertsFor(cells []replayCell, observed map[string]string) []string {
+	var postAsserts []string
+	for _, c := range cells {
 		ob, ok := observed[c.GoPath]
-		rec := map[string]string{"cell": c.GoPath, "pre_model": c.PreVal, "post_observed": ob}
-		res.Cells = append(res.Cells, rec)
 		if !ok {
 			continue
 		}
@@ -647,22 +688,25 @@ func attemptReplay(p *Prog, prop string, o *Obligation) ReplayResult {
 			}
 		}
 	}
-	q := *o
-	q.PC = append(append(append([]string(nil), o.PC...), preAsserts...), postAsserts...)
+	return postAsserts
+}
+
+// consistentWithPath: does the symbolic return path o2 (of the same function, same symbol table)
+// admit the concrete execution described by r (pre-state and observed post-state)?
+func consistentWithPath(p *Prog, o2 *Obligation, nt *types.Named, r *ReplayResult) string {
+	var cells []replayCell
+	collectCells(p, o2, nt, r.recvTerm, r.recvTerm, "", 2, &cells)
+	q := *o2
+	q.PC = append(append(append([]string(nil), o2.PC...), r.preAsserts...), postAssertsFor(cells, r.observed)...)
+	wd, err := os.MkdirTemp("", "gcv-conform-")
+	if err != nil {
+		return "unknown"
+	}
+	defer os.RemoveAll(wd)
 	f := filepath.Join(wd, "consistency.smt2")
 	os.WriteFile(f, []byte(smtText(&q, true)), 0o644)
 	best, _ := solvePortfolio(f, 20, false)
-	switch best.Status {
-	case "sat":
-		res.Confirmed = true
-		res.Reason = "the real function, run from the model's pre-state, ends in a state consistent with the violating symbolic path and violates the clause"
-	case "unsat":
-		res.Reason = "the real run from the model's pre-state does not follow the violating symbolic execution (abstraction artefact or non-deterministic input); see cells"
-	default:
-		res.Reason = "consistency query undecided"
-	}
-	sort.Slice(res.Cells, func(i, j int) bool { return res.Cells[i]["cell"] < res.Cells[j]["cell"] })
-	return res
+	return best.Status
 }
 
 func cmdReplay(path string) int {
